@@ -11,15 +11,11 @@ type buildDeferTree struct {
 }
 
 func (b *buildDeferTree) Process(response *resolve.GraphQLDeferResponse) {
-	if b.disable {
+	if b.disable || len(response.Defers) == 0 {
 		return
 	}
 
 	b.pruneDescriptorsWithoutFetches(response)
-
-	if len(response.Defers) == 0 {
-		return
-	}
 
 	// group DeferFetchGroups by their parent's DeferID
 	childrenOf := make(map[int][]*resolve.DeferFetchGroup)
